@@ -13,7 +13,8 @@ REG = dict(category="model_checking",
     "same-x-opposite-y twin and the same-y endomorphism image). TLC explores every call sequence over the pools (BFS, complete) and checks SingleUse, NoAlias, UsedIsGone, SignOnlyLiveBound. "
     "Every labelled transition of that state graph is replayed through the real API behind its BFS-shortest prefix (transition tour), plus all paths to depth 3 "
     "and seeded random walks; after every call the projection of the concrete state (class/id/bound key of every object, zero-ness of every buffer, return "
-    "value, callback count, and which generated nonce a produced signature verifies against) must equal the specified state. The repository's own musig tests, "
+    "value, callback count, and which generated nonce a produced signature verifies against) must equal the specified state; the tours run a second time with every "
+    "partial_sign issued on a copy of the static context (signing a partial signature needs no generator tables). The repository's own musig tests, "
     "built with the guarded hooks, emit one event per nonce_gen/partial_sign call and TLC validates those traces (WipeAlways, GenFailZero, SingleUse by nonce "
     "identity) at every step.",
     note="Bounded pools (2 objects, 1-2 buffers, 2 keys + twin, 3-4 nonces); byte-copying a live secnonce is outside the API and modelled only as a named "
